@@ -14,6 +14,10 @@ OWN = {
     # a session can never replace a data file finalized by an earlier one: creation only after the final name was seen absent
     "fs.create_only_if_final_absent": ("C02", "C09", "C11"),
     "fs.create_exclusive": ("C02", "C09", "C11"),
+    # after a fault only the writer's own unfinished tmp file may be removed, and nothing written by a failed writer is published:
+    # files finalized before the fault stay intact (C10)
+    "fs.remove_tmp_only": ("C02", "C09", "C10"),
+    "fs.publish_only_without_failure": ("C02", "C09", "C10"),
     "io.": ("C10",),
     "session.": ("C11",),
     "init.": ("C11",),
